@@ -836,11 +836,11 @@ class Container:
             transfer = Unit.convert_from_storage(ratio * source_container.volume, 'L')
             transfer, unit = Unit.get_human_readable_unit(transfer, 'L')
         else:
-            # total mass in source container times ratio
-            mass = sum(Unit.convert(substance,
-                                    f"{amount} {config.moles_storage_unit if not substance.is_enzyme() else 'U'}",
-                                    "mg") for substance, amount in source_container.contents.items())
-            transfer, unit = Unit.get_human_readable_unit(mass * ratio, 'mg')
+            # total mass gained by the destination
+            mass = sum(Unit.convert_from(substance, amount - self.contents.get(substance, 0),
+                                         'U' if substance.is_enzyme() else config.moles_storage_unit, "g")
+                       for substance, amount in to.contents.items())
+            transfer, unit = Unit.get_human_readable_unit(mass, 'g')
         precision = config.precisions[unit] if unit in config.precisions else config.precisions['default']
         to.instructions += f"\nTransfer {round(transfer, precision)} {unit} of {source_container.name} to {to.name}"
         to.volume = 0
